@@ -59,6 +59,10 @@ def run(ctx: Ctx):
               ' max(previous, new) atomically, so the send time of a call that ran'
               ' longer than the threshold cannot overwrite the heartbeats the worker'
               ' pushed meanwhile (R-C20-2)', c20.r2, min_instances=3)
+  ctx.include('R-C06-17', '"every output batch is delivered at least once" under retries: a retried'
+              ' shard is defined afresh — the traced pipeline definition sent to the workers carries no'
+              ' result caching, so a retry on the same worker does not resume a half-read one-shot data'
+              ' source of the abandoned attempt (R-C16-10)', c16.r10, min_instances=1)
   ctx.include('R-C06-16', '"every shard\'s aggregation state is merged exactly once so the'
               ' final aggregate equals the fault-free result": the merge of the shard'
               ' states materialises the one-shot stream of states before handing it to'
